@@ -259,7 +259,24 @@ def check(case):
         m = check_layout(got, _layout_flatten(dims, eff, case["insert"]), ra,
                          "flatten({}, insert={}, reverse={})".format(case["sub"], case["insert"], case["reverse"]),
                          check_pos=case["insert"] is not None)
-        return bad(m) if m else ok("flatten", len(eff) >= 2)
+        if m:
+            return bad(m)
+        # "the value at a grouped position equals the original value at that combination of labels" - also through the indexing API: ONE
+        # position along the grouped axis of an array that keeps other dimensions
+        gname = ",".join(eff)
+        if isinstance(got, DimArray) and got.ndim >= 2 and gname in got.dims and got.shape[list(got.dims).index(gname)] >= 1:
+            gi = list(got.dims).index(gname)
+            for k in (0, got.shape[gi] - 1):
+                sub = call(lambda: got.ix[(slice(None),) * gi + (k,)])
+                if isinstance(sub, Raised):
+                    return bad("position {} along the grouped axis {!r} of the flattened array (dims {}) raised {}".format(k, gname, got.dims, sub), klass="unexpected-exception")
+                want = np.take(got.values, k, axis=gi)
+                sv = sub.values if isinstance(sub, DimArray) else np.asarray(sub)
+                if sv.shape != want.shape or not common.same_values(sv, want):
+                    return bad("position {} along the grouped axis {!r}: values {} expected {}".format(k, gname, common.py(sv), common.py(want)))
+                if isinstance(sub, DimArray) and tuple(sub.dims) != tuple(d for d in got.dims if d != gname):
+                    return bad("position {} along the grouped axis {!r}: dims {} expected the other dimensions of {}".format(k, gname, sub.dims, got.dims))
+        return ok("flatten", len(eff) >= 2)
     if op == "unflatten":
         sub, ins = case["sub"], case["insert"]
         f = call(a.flatten, tuple(sub), insert=ins)
